@@ -258,6 +258,11 @@ def check_blocking(ctx, kind, entities, chop, info, tol_scale=1.0):
                     am, rm = polar(np.asarray(e.third_point.position, dtype=float))
                     ctx.prove("arc-of-revolution-stays-on-its-circle-about-the-axis", abs(am - a1) < 1e-6 * scale and abs(rm - r1) < 1e-6 * scale,
                               axial=(a1, am), radius=(r1, rm))
+                    # ... and runs the short way from one end to the other: its middle point lies between them
+                    radial = lambda p: ((p - c0) - ax * np.dot(p - c0, ax)) / max(r1, 1e-30)
+                    u1, u2, um = (radial(np.asarray(q.position, dtype=float)) for q in (e.vertex_1, e.vertex_2, e.third_point))
+                    ctx.prove("arc-of-revolution-runs-between-its-end-points", np.dot(u1, um) > np.dot(u1, u2) - 1e-9 and np.dot(um, u2) > np.dot(u1, u2) - 1e-9,
+                              between=(float(np.dot(u1, um)), float(np.dot(um, u2)), float(np.dot(u1, u2))))
         ctx.prove("arcs-of-revolution-present", n_arcs > 0)
     # 4. the documented chop calls are sufficient for writing
     if chop is not None:
@@ -299,7 +304,7 @@ def shared_vertices(mesh, ops_a, ops_b):
 
 
 CHAINS = ["cylinder>cylinder", "cylinder>frustum", "frustum>elbow", "elbow>cylinder-start", "ring>ring", "cylinder>expand", "ring>contract", "ring>fill",
-          "hemisphere<cylinder", "chain-of-four"]
+          "hemisphere<cylinder", "hemisphere<elbow", "hemisphere<frustum", "hemisphere<cylinder-start", "chain-of-four"]
 
 
 @proof("C11", "chaining/interface-vertices-shared", cases=CHAINS, level="S", samples=3,
@@ -341,6 +346,18 @@ def chaining(ctx):
         n_if = 16
     elif case == "hemisphere<cylinder":
         pair = [cyl, cb.Hemisphere.chain(cyl)]
+        n_if = 17
+    elif case == "hemisphere<elbow":
+        # the end face of an elbow is not perpendicular to the line between its two face centres
+        el = cb.Elbow(pl.P(0, 0, 0), pl.P(1, 0, 0), pl.V(0, 0, 1), 1.1, pl.P(3, 0, 0), pl.V(0, 1, 0), 0.8 * pl.s)
+        pair = [el, cb.Hemisphere.chain(el)]
+        n_if = 17
+    elif case == "hemisphere<frustum":
+        fr = cb.Frustum(pl.P(0, 0, 0), pl.P(0, 0, 1.5), pl.P(1, 0, 0), 0.6 * pl.s)
+        pair = [fr, cb.Hemisphere.chain(fr)]
+        n_if = 17
+    elif case == "hemisphere<cylinder-start":
+        pair = [cyl, cb.Hemisphere.chain(cyl, start_face=True)]
         n_if = 17
     else:
         a = cyl
